@@ -19,5 +19,7 @@ Untouched == [][foreign' = foreign]_vars
 AlwaysValid == fsck /\ refsok
 
 (* judging one recorded step against the previous one *)
-StepOK(prev, cur) == cur.foreign = prev /\ cur.fsck /\ cur.refsok
+(* interop steps (stock git pushing, collecting, cloning what git-bug wrote; the attached files being there afterwards)
+   must succeed: everything git-bug stores is reachable from its refs in ordinary objects *)
+StepOK(prev, cur) == cur.foreign = prev /\ cur.fsck /\ cur.refsok /\ (cur.interop => cur.exit = 0)
 =============================================================================
